@@ -656,6 +656,19 @@ static void gen_round3(rng &r, bool th)
         P("setlast " + S(n - 1)); P("mt1"); P("mt1"); P("mt1"); P("mt1"); P("push 7"); P("push 8"); P("last"); P("getlast 0 2 1");
         P("fixup -1"); P("fixup " + S(n + 1)); P("distance 0 " + S(n)); P("pop"); P("tail");
     }
+    // (d1) pop / push with the tail and head passing 256 resp. 65536 on a FULL ring of visible content
+    // (an index held in a narrower type than unsigned int addresses a stored slot)
+    for (auto nw : {std::make_pair(299, 256), std::make_pair(65536, 65536), std::make_pair(65535, 65535)})
+    {
+        int n = nw.first, W = nw.second;
+        P("reset typed " + S(n));
+        P("fillbuf");
+        P("setlast " + S(W - 8));   // head = W - 7
+        P("settail " + S(W - 6));   // full
+        for (int i = 0; i < 10; i++) { P("tail"); P("pop"); P("push " + S(7000 + i)); P("last"); }
+        for (int i = 0; i < 4; i++) { P("tail"); P("pop"); }
+        P("getlast 0 5 1");
+    }
     // (d2) a default-constructed ring comes to life through resize()
     for (int n : {0, 1, 3, 8})
     {
